@@ -7,6 +7,7 @@ import (
 	"bytes"
 	"fmt"
 	"math/rand/v2"
+	"net/url"
 	"os"
 	"path/filepath"
 	"sort"
@@ -487,6 +488,30 @@ func c14Gen(r *rand.Rand, tier string) any {
 }
 
 // applySpecEdit2 handles the target add/remove operations (C14).
+// listedButMissing: the record file (relative to .dawn/build) is that of a plain source file
+// some target lists by name and that does not exist in the tree.
+func (p *projSpec) listedButMissing(record string) bool {
+	if !strings.HasPrefix(record, "sources/") {
+		return false
+	}
+	name, err := url.PathUnescape(strings.TrimPrefix(record, "sources/"))
+	if err != nil {
+		return false
+	}
+	name = strings.TrimPrefix(name, "/")
+	for i := range p.Targets {
+		t := &p.Targets[i]
+		for _, s := range t.Sources {
+			if rel := p.sourceRel(t, s); rel == filepath.Clean(name) {
+				if _, ok := p.Files[rel]; !ok && p.generatorOf(rel) == nil {
+					return true
+				}
+			}
+		}
+	}
+	return false
+}
+
 func (p *projSpec) applySpecEdit2(op *opSpec) bool {
 	switch op.Op {
 	case "remove-target":
@@ -680,6 +705,12 @@ func c14Exec(scAny any, c *simcheck.Ctx) *simcheck.Violation {
 			// full load; records of targets removed since then are not dead to it yet
 			// (nor to a collection on a project that was loaded before the latest edits and not reloaded)
 			if !live[n] && !op.Index && !op.Keep {
+				if h.p.listedButMissing(n) {
+					// the record of a source a target lists by name although the file is gone: the
+					// label exists, a from-scratch build just has nothing to record for it
+					c.St.Count("record_of_a_listed_but_missing_source_kept", 1)
+					continue
+				}
 				return simcheck.V("gc-kept-dead-record", "after garbage collection the record %s remains although no target or source of the project has it", n)
 			}
 		}
